@@ -45,10 +45,27 @@ var userFields = []fieldSpec{
 	}},
 }
 
+// extraFields are added by schema patches (C19), in this order.
+var extraFields = []fieldSpec{
+	{Name: "extra1", GQLType: "String", Pool: []valLit{{`null`, `null`}, {`"p"`, `"p"`}, {`"q"`, `"q"`}, {`""`, `""`}}},
+	{Name: "extra2", GQLType: "Int", Pool: []valLit{{`null`, `null`}, {`7`, `7`}, {`-7`, `-7`}, {`0`, `0`}}},
+	{Name: "extra3", GQLType: "Boolean", Pool: []valLit{{`null`, `null`}, {`true`, `true`}, {`false`, `false`}}},
+}
+var extraKinds = []int{11, 4, 2}
+
+func allFields() []fieldSpec {
+	return append(append([]fieldSpec{}, userFields...), extraFields...)
+}
+
 func fieldByName(n string) *fieldSpec {
 	for i := range userFields {
 		if userFields[i].Name == n {
 			return &userFields[i]
+		}
+	}
+	for i := range extraFields {
+		if extraFields[i].Name == n {
+			return &extraFields[i]
 		}
 	}
 	return nil
